@@ -70,7 +70,7 @@ class _DumpDict(dict):
         if len(path) < self.env.dump_depth(path):
             v = _DumpDict(self.env, path)
         else:
-            v = self.env.primes.next()
+            v = self.env._val("dump", path)
             self.env.log.ev("dump_read", path=path, value=v)
             self.env.dump_values[path] = v
         self[k] = v
@@ -80,12 +80,31 @@ class _DumpDict(dict):
         return True
 
 
+class HashSource:
+    """Values that are a deterministic function of the call's content (not of
+    the call order), so that two differently ordered but equivalent programs
+    produce the same metrics dictionary."""
+
+    def __init__(self):
+        self.key = None
+
+    def at(self, *key):
+        self.key = key
+        return self
+
+    def next(self):
+        import hashlib
+        h = hashlib.sha1(repr(self.key).encode()).hexdigest()
+        return 1009 + int(h[:8], 16) % 90001
+
+
 class MetricsEnv:
     """Namespace entries for metrics mode."""
 
-    def __init__(self, log, inert=False):
+    def __init__(self, log, inert=False, content_addressed=False):
         self.log = log
-        self.primes = PrimeSource()
+        self.primes = HashSource() if content_addressed else PrimeSource()
+        self.content_addressed = content_addressed
         self.inert = inert
         self.dump_values = {}
         self.traffic_values = []
@@ -163,18 +182,19 @@ class MetricsEnv:
             @staticmethod
             def streamTraffic(*a, **k):
                 log.ev("streamTraffic", args=len(a))
-                return env.primes.next()
+                return env._val("stream", len(a))
 
         class _Compute:
             @staticmethod
             def numSwaps(*a, **k):
-                v = env.primes.next()
+                v = env._val("numSwaps", [x for x in a if isinstance(x, (int, float, str))],
+                             [getattr(x, "name", None) for x in a])
                 log.ev("numSwaps", value=v, args=[x for x in a if isinstance(x, (int, float, str))])
                 return v
 
             @staticmethod
             def numIters(f, *a, **k):
-                v = env.primes.next()
+                v = env._val("numIters", f)
                 log.ev("numIters", file=f, value=v)
                 return v
 
@@ -183,16 +203,18 @@ class MetricsEnv:
                 def __init__(self, *a, **k):
                     self.kind = kind
                     self.fed = 0
+                    self.fed_args = set()
                     self.idx = len(env.isects)
                     env.isects.append(self)
                     log.ev("isect_new", kind=kind, idx=self.idx)
 
                 def addTraces(self, *a, **k):
                     self.fed += 1
+                    self.fed_args.add(repr(a))
                     log.ev("addTraces", idx=self.idx, n=len(a), args=a)
 
                 def getNumIntersects(self, *a, **k):
-                    v = env.primes.next()
+                    v = env._val("isect", self.kind, sorted(self.fed_args), self.fed)
                     log.ev("getNumIntersects", idx=self.idx, value=v)
                     return v
             _I.__name__ = kind
@@ -208,6 +230,11 @@ class MetricsEnv:
                        "SkipAheadIntersector": _mk_isect("SkipAheadIntersector"),
                        "TwoFingerIntersector": _mk_isect("TwoFingerIntersector")}
 
+    def _val(self, *key):
+        if self.content_addressed:
+            return self.primes.at(*key).next()
+        return self.primes.next()
+
     def dump_depth(self, path):
         # Metrics.dump()["Compute"]["payload_mul"] etc.: two levels
         return 2
@@ -215,9 +242,10 @@ class MetricsEnv:
     def _traffic(self, kind, bindings, formats, traces, extra):
         self.log.ev(kind + "Traffic", bindings=bindings, traces=dict(traces), extra=len(extra))
         out = {}
+        tr = sorted((repr(k), v) for k, v in dict(traces).items())
         for b in bindings:
             t = b["tensor"] if isinstance(b, dict) else str(b)
-            out[t] = {"read": self.primes.next(), "write": self.primes.next()}
+            out[t] = {"read": self._val(kind, t, tr, "read"), "write": self._val(kind, t, tr, "write")}
         self.traffic_values.append((kind, out))
         return [out]
 
